@@ -32,8 +32,8 @@ const (
 
 var UTC = time.UTC
 
-func Unix(sec, nsec int64) Time      { return time.Unix(sec, nsec) }
-func UnixMilli(ms int64) Time        { return time.UnixMilli(ms) }
+func Unix(sec, nsec int64) Time                { return time.Unix(sec, nsec) }
+func UnixMilli(ms int64) Time                  { return time.UnixMilli(ms) }
 func ParseDuration(s string) (Duration, error) { return time.ParseDuration(s) }
 
 func Now() Time {
